@@ -1031,6 +1031,8 @@ class Interp:
             raise Raised('AttributeError')
         if v is str and name in ('maketrans', 'join'):
             return getattr(str, name)
+        if v is dict and name == 'fromkeys':
+            return lambda keys, *val: dict.fromkeys(self.iterate(keys), *val)
         return UNK
 
     def _record_fields(self, cls: ClassInfo) -> list[str] | None:
